@@ -17,45 +17,95 @@ for n in range(0, 12):
 
 # ---- b/c: version_edit.c export/import vs the MANIFEST-record reference ----
 EDIT_REAL = ["version_edit.c", "util/buffer.c", "util/slice.c", "util/rbt.c", "dbformat.c"]
-EDIT_KIT = ["vp_nondet.c", "vp_mem.c", "vp_alloc_slab.c"]
+EDIT_KIT = ["vp_nondet.c", "vp_mem.c", "vp_alloc_c17.c", "vp_buffer_c17.c"]
+EDIT_REPLACE = ["ldb_buffer_varint32:vp_buffer_varint32", "ldb_buffer_varint64:vp_buffer_varint64",
+                "ldb_buffer_export:vp_buffer_export"]
 EDIT_FUNCS = ["ldb_edit_export", "ldb_edit_import", "ldb_edit_add_file", "ldb_edit_remove_file",
               "ldb_edit_set_compact_pointer", "ldb_edit_clear", "ldb_level_slurp",
               "ldb_buffer_varint32", "ldb_buffer_varint64", "ldb_buffer_export", "ldb_buffer_slurp",
               "ldb_slice_slurp", "ldb_rb_tree_put", "ldb_rb_iter_next", "ldb_vector_push"]
 
 
-def edit_obl(mode, nf, nd, nc, ks, kl, cn, rot, tier="quick"):
+def edit_obl(mode, nf, nd, nc, ks, kl, cn, rot, mask=31, focus=0, symp=0, tier="quick"):
     """mode 0: export == reference encoder; 2: import of the reference bytes == original;
     3: reference decoder self-check; 4: direct export -> import round trip (tiny sizes)."""
     nm = {0: "export", 2: "import", 3: "refdec", 4: "roundtrip"}[mode]
-    nfields = 5 + nf + nd + nc
+    if mode != 0:
+        symp = 0    # a symbolic presence flag makes the tag bytes symbolic: decoders then fan out over all 8 tags
+    nfields = bin(mask | symp).count("1") + nf + nd + nc
     outcap = (2 + cn) + 4 * 11 + nc * (3 + kl) + nd * 12 + nf * (24 + ks + kl)
     slab = max(outcap * 3 // 2 + 8, 32)
     what = {0: "ldb_edit_export bytes == reference MANIFEST-record encoder (tags 1,2,9,3,4,5,6,7 in order); built edit holds the fields",
             2: "ldb_edit_import of the standard record (== lcdb's export bytes by the export obligation) recovers every field",
             3: "independent reference decoder accepts the exported/standard bytes and recovers every field",
             4: "export -> reference decoder and export -> ldb_edit_import recover every field, in one query"}[mode]
-    return Obl("b.edit-%s-F%d-D%d-C%d-K%d.%d-N%d-R%d" % (nm, nf, nd, nc, ks, kl, cn, rot), "C17/edit.c",
+    defs = {"VP_MODE": mode, "VP_NF": nf, "VP_ND": nd, "VP_NC": nc, "VP_KS": ks, "VP_KL": kl, "VP_CN": cn,
+            "VP_ROT": rot, "VP_SLAB": slab, "VP_OUTCAP": outcap, "VP_VEC_CAP": 4}
+    defs.update({"VP_MASK": mask, "VP_FOCUS": focus, "VP_SYMP": symp})
+    return Obl("b.edit-%s-F%d-D%d-C%d-K%d.%d-N%d-R%d-M%d.%d-X%d" % (nm, nf, nd, nc, ks, kl, cn, rot, mask, symp, focus), "C17/edit.c",
                real=EDIT_REAL, kit=EDIT_KIT, include_real=["util/vector.c"],
-               defs={"VP_MODE": mode, "VP_NF": nf, "VP_ND": nd, "VP_NC": nc, "VP_KS": ks, "VP_KL": kl, "VP_CN": cn,
-                     "VP_ROT": rot, "VP_SLAB": slab, "VP_OUTCAP": outcap, "VP_VEC_CAP": 4},
-               unwind=12,
-               unwindset={"vp_expect_bytes.0": outcap + 1, "ref_decode.0": nfields + 2,
-                          "ldb_edit_import.0": nfields + 2},
+               defs=defs, replace_calls=EDIT_REPLACE,
+               flags=["--max-field-sensitivity-array-size", str(max(slab, outcap) + 1)],
+               unwind=12 + (cn + 1 if cn > 10 else 0),
+               unwindset={"vp_expect_bytes.0": outcap + 1,
+                          "ref_put_byte.0": 9 * bin(focus & 0x3ff).count("1") + 4 * bin(focus >> 10).count("1") + 2, "ref_decode.0": max(nfields, 1),
+                          "ldb_edit_import.0": max(nfields, 1)},
                timeout=600, tier=tier, functions=EDIT_FUNCS, desc=what,
                bounds="%d new files, %d deleted files, %d compact pointers, keys %d/%d bytes, comparator name %d bytes; "
                       "scalar fields symbolic present/absent, levels 0..6; every 64-bit number symbolic inside the varint "
                       "length class 1+(3*field+%d)%%10 (all classes covered over R0..R9)" % (nf, nd, nc, ks, kl, cn, rot))
 
 
-for mode in (0, 2, 3):
-    OBLIGATIONS.append(edit_obl(mode, 0, 0, 0, 8, 8, 2, 0))
-    OBLIGATIONS.append(edit_obl(mode, 1, 1, 1, 8, 9, 3, 1))
-    OBLIGATIONS.append(edit_obl(mode, 2, 2, 1, 9, 10, 3, 2))
-OBLIGATIONS.append(edit_obl(4, 0, 1, 0, 8, 8, 1, 3))
+# field bits for focus=...: 0 log, 1 prev, 2 next, 3 seq, 4..5 deleted numbers, 6/7 8/9 new-file number/size,
+# 10 compact-pointer level, 11..12 deleted levels, 13..14 new-file levels
+EDIT_CONFIGS = [
+    # (nf, nd, nc, ks, kl, cn, rot, mask, focus, symp, cnsym)
+    # The focused (fully symbolic) field sits in the last field of the record, in lcdb's own emission
+    # order, so that the bytes in front of it stay at concrete offsets.
+    # scalars: each one focused, with symbolic presence; concrete presence patterns; symbolic comparator bytes
+    (0, 0, 0, 8, 8, 2, 0, 3, 1 << 0, 1 << 1, 0),
+    (0, 0, 0, 8, 8, 3, 1, 7, 1 << 1, 1 << 2, 0),
+    (0, 0, 0, 8, 8, 1, 2, 15, 1 << 2, 1 << 3, 0),
+    (0, 0, 0, 8, 8, 2, 3, 31, 1 << 3, 1 << 4, 0),
+    (0, 0, 0, 8, 8, 3, 4, 1, 0, 1, 1),
+    (0, 0, 0, 8, 8, 0, 5, 0, 0, 0, 0),
+    (0, 0, 0, 8, 8, 4, 6, 21, 0, 0, 0),
+    (0, 0, 0, 8, 8, 2, 7, 10, 0, 0, 0),
+    (0, 0, 0, 8, 8, 26, 8, 31, 0, 0, 0),
+    # deleted files
+    (0, 1, 0, 8, 8, 0, 0, 0, (1 << 4) | (1 << 11), 0, 0),
+    (0, 2, 0, 8, 8, 0, 3, 0, (1 << 5) | (1 << 12), 0, 0),
+    (0, 2, 0, 8, 8, 0, 5, 2, 0, 0, 0),
+    # compact pointer
+    (0, 0, 1, 8, 8, 0, 1, 0, 1 << 10, 0, 0),
+    (0, 0, 1, 8, 9, 0, 2, 0, 1 << 10, 0, 0),
+    (0, 0, 1, 8, 10, 0, 4, 16, 1 << 10, 0, 0),
+    # new files
+    (1, 0, 0, 8, 9, 0, 0, 0, 1 << 6, 0, 0),
+    (1, 0, 0, 9, 10, 0, 5, 0, 1 << 7, 0, 0),
+    (1, 0, 0, 10, 8, 0, 7, 0, 1 << 13, 0, 0),
+    (2, 0, 0, 8, 9, 0, 9, 0, (1 << 8) | (1 << 14), 0, 0),
+    # everything together: concrete numbers of different length classes, or the last number focused
+    (2, 2, 1, 9, 10, 3, 0, 31, 0, 0, 0),
+    (2, 2, 1, 8, 9, 3, 4, 31, 0, 0, 0),
+    (2, 2, 1, 10, 8, 3, 8, 29, 1 << 9, 0, 0),
+    (1, 1, 1, 8, 8, 2, 6, 31, 1 << 7, 0, 0),
+]
 
-for x in (1, 2, 4):
-    OBLIGATIONS.append(Obl("x1-%d" % x, "C17/tmp/x1.c", real=EDIT_REAL, kit=EDIT_KIT, include_real=["util/vector.c"], defs={"VP_X": x, "VP_SLAB": 96}, unwind=12, tier="thorough"))
+
+def edit_cfg(mode, c, tier="quick"):
+    o = edit_obl(mode, c[0], c[1], c[2], c[3], c[4], c[5], c[6], mask=c[7], focus=c[8], symp=c[9], tier=tier)
+    if c[10]:
+        o.defs["VP_CNSYM"] = 1
+        o.name += "-cnsym"
+    return o
+
+
+for mode in (0, 2, 3):
+    for c in EDIT_CONFIGS:
+        OBLIGATIONS.append(edit_cfg(mode, c))
+OBLIGATIONS.append(edit_cfg(4, (1, 1, 1, 8, 8, 2, 2, 31, 1 << 7, 0, 0)))
+
 META = {
     "level": "model_checking",
     "level_text": "Bounded model checking (CBMC) of lcdb's own coding.h / version_edit.c / version_set.c code: encode/decode round trips and agreement with an independently written LevelDB-format reference for every value of the symbolic fields inside the stated sizes; counterexamples are replayed natively.",
